@@ -686,8 +686,17 @@ class Interp:
                 if isinstance(e.op, ast.Or) and r:
                     return r
             return r
-        if isinstance(e, ast.Dict) and all(k is not None for k in e.keys):
-            return {self.ev(k, env, depth): self.ev(v_, env, depth) for k, v_ in zip(e.keys, e.values)}
+        if isinstance(e, ast.Dict):
+            out_ = {}
+            for k, v_ in zip(e.keys, e.values):
+                if k is None:  # {**mapping}
+                    m_ = self.ev(v_, env, depth)
+                    if not isinstance(m_, dict):
+                        raise _Unknown("** of a non-constant mapping") if isinstance(m_, (Obj, Stream, Bound)) or m_ is UNKNOWN else TypeError("not a mapping")
+                    out_.update(m_)
+                else:
+                    out_[self.ev(k, env, depth)] = self.ev(v_, env, depth)
+            return out_
         if isinstance(e, (ast.Tuple, ast.List)) and not any(isinstance(x, ast.Starred) for x in e.elts):
             vals = [self.ev(x, env, depth) for x in e.elts]
             return tuple(vals) if isinstance(e, ast.Tuple) else vals
